@@ -12,7 +12,8 @@ from ..description import Description
 from ..diagcomm import DiagComm
 from ..diagdatadictionaryspec import DiagDataDictionarySpec
 from ..diagservice import DiagService
-from ..exceptions import DecodeError, odxassert, odxraise
+from .. import exceptions
+from ..exceptions import DecodeError, OdxError, odxassert, odxraise
 from ..library import Library
 from ..message import Message
 from ..nameditemlist import NamedItemList, TNamed
@@ -377,6 +378,27 @@ class DiagLayer:
         return possible_services
 
     def _decode(self, message: bytes, candidate_services: Iterable[DiagService]) -> List[Message]:
+        if not exceptions.strict_mode:
+            # Which candidates apply is determined by means of the
+            # errors which they raise. In non-strict mode most of
+            # these are not raised, i.e., candidates which do not
+            # fit the message would "succeed", too. A message which
+            # can be decoded without tolerating any problem thus is
+            # decoded strictly, so that the result is the same in
+            # both modes.
+            candidate_services = list(candidate_services)
+            exceptions.strict_mode = True
+            try:
+                return self._decode_candidates(message, candidate_services)
+            except OdxError:
+                pass
+            finally:
+                exceptions.strict_mode = False
+
+        return self._decode_candidates(message, candidate_services)
+
+    def _decode_candidates(self, message: bytes,
+                           candidate_services: Iterable[DiagService]) -> List[Message]:
         decoded_messages: List[Message] = []
         last_error: Optional[DecodeError] = None
 
